@@ -83,6 +83,13 @@ fn error_frame(n: u32, size: usize) -> FrameSpec {
     }
 }
 
+/// A final reply that does not decode as the expected types: wrong-shaped parameters or an error
+/// neither the standard service errors nor the caller's error type know.
+fn undecodable_frame(n: u32) -> FrameSpec {
+    let bytes: &[u8] = if n % 2 == 0 { br#"{"parameters":{"s":7,"n":"seven"}}"# } else { br#"{"error":"x.NotDeclaredAnywhere","parameters":{"k":1}}"# };
+    FrameSpec { bytes: bytes.to_vec(), expect: "transport-or-decode-error".into(), payload: String::new() }
+}
+
 fn render(item: &zlink_core::Result<zlink_core::reply::Result<R<'_>, E<'_>>>) -> String {
     match item {
         Ok(Ok(r)) => match r.parameters() {
@@ -183,11 +190,16 @@ impl Harness for ChainH {
                 CallKind::Oneway => {}
                 CallKind::Plain => {
                     seq += 1;
-                    if cx.choose(2, "reply:success|error") == 0 {
-                        frames.push(success_frame(seq, self.size(cx), None));
-                    } else {
-                        cx.goal("error-reply-in-chain");
-                        frames.push(error_frame(seq, self.size(cx)));
+                    match cx.choose(if self.hold { 2 } else { 3 }, "reply:success|error|undecodable") {
+                        0 => frames.push(success_frame(seq, self.size(cx), None)),
+                        1 => {
+                            cx.goal("error-reply-in-chain");
+                            frames.push(error_frame(seq, self.size(cx)));
+                        }
+                        _ => {
+                            cx.goal("undecodable-reply-in-chain");
+                            frames.push(undecodable_frame(seq));
+                        }
                     }
                 }
                 CallKind::More => {
@@ -198,11 +210,16 @@ impl Harness for ChainH {
                         cx.goal("more-call-with-continuing-replies");
                     }
                     seq += 1;
-                    if cx.choose(2, "final:success|error") == 0 {
-                        frames.push(success_frame(seq, self.size(cx), Some(false)));
-                    } else {
-                        cx.goal("error-reply-in-chain");
-                        frames.push(error_frame(seq, self.size(cx)));
+                    match cx.choose(if self.hold { 2 } else { 3 }, "final:success|error|undecodable") {
+                        0 => frames.push(success_frame(seq, self.size(cx), Some(false))),
+                        1 => {
+                            cx.goal("error-reply-in-chain");
+                            frames.push(error_frame(seq, self.size(cx)));
+                        }
+                        _ => {
+                            cx.goal("undecodable-reply-in-chain");
+                            frames.push(undecodable_frame(seq));
+                        }
                     }
                 }
             }
@@ -297,7 +314,7 @@ impl Harness for ChainH {
         if self.hold {
             alloclog::start();
         }
-        let verdict: Result<(), Verdict> = (|| {
+        let verdict: Result<bool, Verdict> = (|| {
             let mut chain = conn.chain_call::<Meth, R<'_>, E<'_>>(&calls[0]).map_err(|e| Verdict::fail("chain:call-refused", format!("{e:?}")))?;
             for c in &calls[1..] {
                 chain = chain.append(c).map_err(|e| Verdict::fail("chain:call-refused", format!("{e:?}")))?;
@@ -329,6 +346,8 @@ impl Harness for ChainH {
             let mut items: Vec<zlink_core::Result<zlink_core::reply::Result<R<'_>, E<'_>>>> = Vec::new();
             let mut held: Vec<Held> = Vec::new();
             let mut yielded = 0usize;
+            let mut bad_seen = false;
+            let mut gave_up = false;
             loop {
                 let polls_before = wire.0.borrow().read_polls;
                 let mut guard = 0;
@@ -365,6 +384,15 @@ impl Harness for ChainH {
                 match item {
                     None => {
                         cx.log(|| format!("stream: end (after {yielded} items; transport polled during this step: {polled_transport})"));
+                        if yielded < owed && bad_seen {
+                            // the stream gave up at the reply it could not decode: the rest of the
+                            // exchange is the caller's problem, nothing more is judged
+                            if polled_transport {
+                                return Err(Verdict::fail("chain:end-of-stream-polled-transport", format!("chain {kinds:?}: the transport was polled after the stream had given up at an undecodable reply")));
+                            }
+                            gave_up = true;
+                            break;
+                        }
                         if yielded < owed {
                             return Err(Verdict::fail("chain:stream-ended-early", format!("chain {kinds:?}: the stream ended after {yielded} of {owed} owed replies")));
                         }
@@ -380,7 +408,12 @@ impl Harness for ChainH {
                             let class = if owed == 0 { "chain:oneway-only-chain-yields-a-reply" } else { "chain:stream-yields-more-than-owed" };
                             return Err(Verdict::fail(class, format!("chain {kinds:?}: {owed} replies owed but the stream yielded item #{yielded}: `{got}` (stream {})", show(&stream_bytes))));
                         }
-                        if got != frames[yielded].expect {
+                        if frames[yielded].expect == "transport-or-decode-error" {
+                            bad_seen = true;
+                            if !got.starts_with("transport-or-decode-error") {
+                                return Err(Verdict::fail("chain:undecodable-reply-yielded-as-a-message", format!("chain {kinds:?}: item #{yielded} is `{got}` for the frame `{}`", show(&frames[yielded].bytes))));
+                            }
+                        } else if got != frames[yielded].expect {
                             return Err(Verdict::fail("chain:wrong-item", format!("chain {kinds:?}: item #{yielded} is `{got}`, expected `{}` (stream {}, cuts {cuts:?})", frames[yielded].expect, show(&stream_bytes))));
                         }
                         h.s(&got);
@@ -410,7 +443,7 @@ impl Harness for ChainH {
             if self.hold {
                 check_held(cx, &wire, &|i| borrowed(&items[i]).unwrap_or("").to_string(), &held, &frames, yielded, "chain")?;
             }
-            Ok(())
+            Ok(gave_up)
         })();
         if self.hold {
             alloclog::stop();
@@ -418,14 +451,15 @@ impl Harness for ChainH {
                 xplore::bug!("allocation log overflowed");
             }
         }
-        if let Err(v) = verdict {
-            return v;
-        }
+        let gave_up = match verdict {
+            Err(v) => return v,
+            Ok(g) => g,
+        };
         if owed == 0 && wire.0.borrow().read_polls != 0 {
             return Verdict::fail("chain:oneway-only-chain-polled-transport", format!("chain {kinds:?}: nothing is owed, yet the transport was polled for data"));
         }
         // 3. the trailing frame belongs to the next exchange
-        if trailing {
+        if trailing && !gave_up {
             while deliver(&wire, &mut chunks, &mut arrived) {}
             let r = simnet::complete_or_stall(conn.receive_reply::<R<'_>, E<'_>>());
             let got = match &r {
@@ -629,12 +663,13 @@ impl Harness for ProxyStreamH {
 
 pub fn run_c06(tier: Tier) -> i32 {
     let mut rep = Report::new("C06", tier.name());
-    rep.rule = "DFS by re-execution over: chain in {plain, oneway, more}^1..N x per non-oneway call a reply script (success | declared error; for `more` 0..2 continuing replies before the final success/error) x trailing unrelated frame {absent, present} x arrival chunking of the reply bytes (cut candidates: before the first byte, after the first byte / in the middle / before the NUL of every frame, between frames; phase `inter` takes every subset of the inter-frame cuts, the other cuts and spurious Pending answers cost one deviation each). Outcomes are distinct (item sequence, number of transport polls)".into();
-    rep.assumptions = vec!["server reply scripts conform to the protocol (one reply per call; continues only on replies to `more` calls)".into(), "the stream is polled only when its waker fired or new bytes were delivered".into()];
+    rep.rule = "DFS by re-execution over: chain in {plain, oneway, more}^1..N x per non-oneway call a reply script (success | declared error | a final reply that does not decode - wrong-shaped parameters or an error nobody declares; for `more` 0..2 continuing replies before that final reply) x trailing unrelated frame {absent, present} x arrival chunking of the reply bytes (cut candidates: before the first byte, after the first byte / in the middle / before the NUL of every frame, between frames; phase `inter` takes every subset of the inter-frame cuts, the other cuts and spurious Pending answers cost one deviation each). Outcomes are distinct (item sequence, number of transport polls)".into();
+    rep.assumptions = vec!["server reply scripts conform to the protocol (one reply per call; continues only on replies to `more` calls)".into(), "the stream is polled only when its waker fired or new bytes were delivered".into(), "after a reply that does not decode the stream may end (what remains of the exchange is then not judged) or carry on; in both cases it must not take or wait for more frames than the chain is owed".into()];
     for g in [
         "chain-of-only-oneway-calls",
         "more-call-with-continuing-replies",
         "error-reply-in-chain",
+        "undecodable-reply-in-chain",
         "trailing-unrelated-frame",
         "replies-in-separate-reads",
         "replies-coalesced-in-one-read",
